@@ -117,3 +117,51 @@ async def case_aclose_with_configured_abort_signal():
 
 
 asyncio.run(case_aclose_with_configured_abort_signal())
+
+
+async def case_cancelled_list_completion_leaves_custom_iterator_open():
+    """A list field served by an AsyncIterable whose iterator is a separate object, completed
+    while a sibling non-null field fails asynchronously (the parent is nulled and the list
+    completion is cancelled).  With an abort signal configured the iterator is never closed."""
+    from graphql import execute
+
+    for configured in (False, True):
+        schema = build_schema("type Hero { nn: String! friends: [Hero] name: String } type Query { hero: Hero }")
+        state = {"started": 0, "closed": 0}
+
+        class Source:
+            def __aiter__(self):
+                return Iterator()
+
+        class Iterator:
+            def __init__(self):
+                self.i = 0
+                state["started"] += 1
+
+            def __aiter__(self):
+                return self
+
+            async def __anext__(self):
+                await asyncio.sleep(0.01)
+                self.i += 1
+                if self.i > 3:
+                    raise StopAsyncIteration
+                return {"name": "f"}
+
+            async def aclose(self):
+                state["closed"] += 1
+
+        async def nn(*_):
+            await asyncio.sleep(0.015)
+            return None  # non-null violation -> hero becomes null, sibling work is cancelled
+
+        schema.type_map["Hero"].fields["nn"].resolve = nn
+        schema.type_map["Hero"].fields["friends"].resolve = lambda *_: Source()
+        kw = {"abort_signal": AbortController().signal} if configured else {}
+        result = await execute(schema, parse("{ hero { nn friends { name } } }"), {"hero": {}}, **kw)
+        await asyncio.sleep(0.1)
+        print("list completion cancelled by a failing sibling, abort signal configured =", configured, ": data =", result.data,
+              "; custom iterator started/closed =", state["started"], state["closed"], "(property: closed exactly once)")
+
+
+asyncio.run(case_cancelled_list_completion_leaves_custom_iterator_open())
